@@ -37,7 +37,7 @@ func checkPaths(v *engine.Verdict, what string, g *graph.Graph, vs []graph.Verte
 			continue
 		}
 		ids, ok := chain(edgeTo, vs, t, n)
-		if ref[t] == engine.Inf {
+		if ref[t] == engine.Unreachable {
 			if !ok {
 				v.Failf("%s: predecessor chain of unreachable vertex %d does not terminate", what, t)
 				return
@@ -106,7 +106,12 @@ func evalC18(c *engine.Case) engine.Verdict {
 		reps = 1
 	}
 	w := gc.Weights()
-	ref := engine.SingleSource(gc.N, w, gc.Src)
+	ref, representable := engine.SingleSource(gc.N, w, gc.Src)
+	if !representable {
+		// the true distance of some reachable vertex does not fit an int
+		v.Class("domain-miss:distance-not-representable")
+		return v
+	}
 	for rep := 0; rep < reps && v.Fail == ""; rep++ {
 		g, vs := gc.Build()
 		var o engine.Outcome
@@ -122,14 +127,14 @@ func evalC18(c *engine.Case) engine.Verdict {
 	// classification
 	reach, multiPred, longer, unreachable := 0, false, false, 0
 	for t := 0; t < gc.N; t++ {
-		if ref[t] == engine.Inf {
+		if ref[t] == engine.Unreachable {
 			unreachable++
 			continue
 		}
 		reach++
 		preds := 0
 		for e := range w {
-			if e[1] == t && e[0] != t && ref[e[0]] != engine.Inf {
+			if e[1] == t && e[0] != t && ref[e[0]] != engine.Unreachable {
 				preds++
 			}
 		}
@@ -153,6 +158,9 @@ func evalC18(c *engine.Case) engine.Verdict {
 	if gc.Hash {
 		v.Class("hashcode-vertices")
 	}
+	if gc.Uncmp {
+		v.Class("non-comparable-vertex-values")
+	}
 	for e := range w {
 		if e[0] == e[1] {
 			v.Class("self-loop")
@@ -174,6 +182,12 @@ func evalC18(c *engine.Case) engine.Verdict {
 			break
 		}
 	}
+	for _, wt := range w {
+		if wt >= 1<<62 {
+			v.Class("weight-near-the-largest-int")
+			break
+		}
+	}
 	if gc.N > 24 {
 		v.Class("vertices>24")
 	}
@@ -184,6 +198,15 @@ func evalC18(c *engine.Case) engine.Verdict {
 
 func genC18(g engine.G) *engine.Case {
 	gc := engine.GenGraphCase(g, "any", 24, 1000)
+	if g.Pct(5) {
+		// weights close to the largest int: most path sums do not fit an int
+		// (they are farther than anything representable), the shortest ones do
+		const maxInt = int(^uint(0) >> 1)
+		pal := []int{0, 0, 1, 2, maxInt - 1, maxInt - 2, maxInt / 2, maxInt/2 + 1, maxInt / 3}
+		for i := range gc.Edges {
+			gc.Edges[i][2] = engine.Pick(g, pal)
+		}
+	}
 	c := &engine.Case{Reps: 3}
 	c.SetX(gc)
 	return c
